@@ -48,6 +48,9 @@ type Script struct {
 	// InitNote: while the server handles a session's initialize request, a receiving middleware reports progress
 	// with that request's context: the notification belongs to the initialize request's exchange.
 	InitNote bool `json:"init_note,omitempty"`
+	// CaseIDs (stateful): the application chooses the session ids (ServerOptions.GetSessionID) and they differ
+	// only in the case of their letters: opaque, case-sensitive strings all the same.
+	CaseIDs bool `json:"case_ids,omitempty"`
 }
 
 func genScript(rt *rapid.T, race bool) Script {
@@ -65,6 +68,7 @@ func genScript(rt *rapid.T, race bool) Script {
 		s.StoreDelayUs = rapid.SampledFrom([]int{0, 0, 100, 1000}).Draw(rt, "store_delay")
 	}
 	s.InitNote = !s.Stateless && rapid.Bool().Draw(rt, "init_note")
+	s.CaseIDs = !s.Stateless && rapid.IntRange(0, 2).Draw(rt, "case_ids") == 0
 	n := rapid.IntRange(1, 40).Draw(rt, "n")
 	for i := 0; i < n; i++ {
 		st := Step{Kind: rapid.SampledFrom([]string{"note", "note", "note", "detached", "finish", "after", "duppair", "resupd", "sreq", "sreq", "sreqcancel", "cutreuse", "lateget", "quietcut"}).Draw(rt, "kind")}
@@ -135,10 +139,25 @@ func runInBubble(s Script) (res vt.Result) {
 		return chans[tag]
 	}
 	seq := map[string]int{}
-	server := mcp.NewServer(&mcp.Implementation{Name: "srv", Version: "1"}, &mcp.ServerOptions{
+	sopts := &mcp.ServerOptions{
 		SubscribeHandler:   func(context.Context, *mcp.SubscribeRequest) error { return nil },
 		UnsubscribeHandler: func(context.Context, *mcp.UnsubscribeRequest) error { return nil },
-	})
+	}
+	if s.CaseIDs {
+		caseIDs := []string{"k7QxR2mZ-session", "K7qXr2Mz-SESSION", "k7qxr2mz-session", "K7QXR2MZ-SESSION", "k7QXr2mZ-Session", "K7qxR2Mz-sESSION"}
+		var idMu sync.Mutex
+		issued := 0
+		sopts.GetSessionID = func() string {
+			idMu.Lock()
+			defer idMu.Unlock()
+			issued++
+			if issued <= len(caseIDs) {
+				return caseIDs[issued-1]
+			}
+			return fmt.Sprintf("k7QxR2mZ-session-%d", issued)
+		}
+	}
+	server := mcp.NewServer(&mcp.Implementation{Name: "srv", Version: "1"}, sopts)
 	initSeq := 0
 	if s.InitNote {
 		server.AddReceivingMiddleware(func(next mcp.MethodHandler) mcp.MethodHandler {
@@ -809,6 +828,9 @@ func runInBubble(s Script) (res vt.Result) {
 	res.NonTrivial = overlap
 	res.Desc = fmt.Sprintf("%v|%v|%v|%v|%v|%s", s.Stateless, s.JSON, s.Store, s.Calls, s.Standalone, desc.String())
 	res.Class(fmt.Sprintf("stateless_%v_json_%v", s.Stateless, s.JSON))
+	if s.CaseIDs && s.Sessions > 1 {
+		res.Class("session_ids_differing_only_in_case")
+	}
 	if sreqN > 0 {
 		res.Class("server_to_client_request")
 	}
